@@ -12,6 +12,7 @@ import (
 	"sort"
 	"strings"
 	"sync"
+	"sync/atomic"
 	"time"
 
 	envoy_core "github.com/envoyproxy/go-control-plane/envoy/config/core/v3"
@@ -190,6 +191,11 @@ func (r EnvoyResult) Header(name string) string {
 	return ""
 }
 
+var envoyForm atomic.Uint64
+
+// EnvoyTargetsWithQueryInPath counts the requests sent the way Envoy itself sends them.
+var EnvoyTargetsWithQueryInPath atomic.Int64
+
 // Check maps a logical request to a CheckRequest the way the repository's own tests and Envoy do
 // (lower-case header keys, path and query in separate fields).
 func (e *Envoy) Check(method, scheme, host, pathAndQuery string, hdrs map[string]string, body string, rawBody []byte) EnvoyResult {
@@ -199,8 +205,15 @@ func (e *Envoy) Check(method, scheme, host, pathAndQuery string, hdrs map[string
 	for k, v := range hdrs {
 		lower[strings.ToLower(k)] = v
 	}
-	// path and query travel in separate fields, as in the repository's own tests (recorded assumption)
+	// Envoy sends the request target - path AND query - in `path` and leaves `query` empty (envoy/service/auth/v3
+	// attribute_context.proto: "This field is always empty, and exists for compatibility reasons. The HTTP URL query is
+	// included in path field"); the repository's own tests and other ext_authz clients fill both fields. Every second
+	// request of this client is sent in the one, every other in the other form.
 	path, query, _ := strings.Cut(pathAndQuery, "?")
+	if query != "" && envoyForm.Add(1)%2 == 0 {
+		path, query = pathAndQuery, ""
+		EnvoyTargetsWithQueryInPath.Add(1)
+	}
 	cr, err := e.c.Check(ctx, &envoy_auth.CheckRequest{Attributes: &envoy_auth.AttributeContext{Request: &envoy_auth.AttributeContext_Request{
 		Http: &envoy_auth.AttributeContext_HttpRequest{Method: method, Scheme: scheme, Host: host, Path: path, Query: query, Headers: lower, Body: body, RawBody: rawBody},
 	}}})
